@@ -406,10 +406,11 @@ if __name__ == '__main__':
         print('INCONCLUSIVE', e)
         sys.exit(2)
     rc = 0
-    for h in u['harnesses']:
-        if a.harness and h['name'] != a.harness:
-            continue
-        r = run_harness(u, h, bdir, a.tier, info)
+    import concurrent.futures as _cf
+    hs = [h for h in u["harnesses"] if not a.harness or h["name"] == a.harness]
+    with _cf.ThreadPoolExecutor(max_workers=8) as _ex:
+        _res = list(_ex.map(lambda h: run_harness(u, h, bdir, a.tier, info), hs))
+    for h, r in zip(hs, _res):
         print('%-28s %-12s ob=%d failed=%d %.1fs %s' % (h['name'], r['status'], len(r['obligations']),
                                                          len(r['failed']), r['wall_s'], r.get('reason', '')))
         for f in r['failed']:
